@@ -717,8 +717,299 @@ def r24c(ctx, rows):
     ctx.floor("R24c", "db handlers", len(handlers), 18)
 
 
+# ---------------------------------------------------------------- R24d query classes
+
+UDB = "agdb_server::db_pool::user_db::"
+QT = "agdb::query::QueryType"
+# appendix A.3
+MUTATING = {"InsertAlias", "InsertEdges", "InsertIndex", "InsertNodes", "InsertValues", "Remove", "RemoveAliases",
+            "RemoveIndex", "RemoveValues"}
+READING = {"Search", "SelectAliases", "SelectAllAliases", "SelectEdgeCount", "SelectIndexes", "SelectKeys",
+           "SelectKeyCount", "SelectNodeCount", "SelectValues"}
+
+
+def flatten_or(p):
+    if p["k"] == "or":
+        return [x for s in p["sub"] for x in flatten_or(s)]
+    return [p]
+
+
+def query_truth(fa):
+    """variant -> 'mut' | 'read' | None from the trait implemented by the payload type."""
+    adt = fa.adts.get(QT)
+    out = {}
+    if not adt:
+        return out
+    impls = {}
+    for im in fa.impls:
+        tr = im.get("trait") or ""
+        if tr in ("agdb::query::QueryMut", "agdb::query::Query"):
+            impls.setdefault(im["self"], set()).add("mut" if tr.endswith("QueryMut") else "read")
+    for v in adt["variants"]:
+        ty = v["fields"][0]["ty"] if len(v["fields"]) == 1 else None
+        k = impls.get(ty, set())
+        out[v["name"]] = next(iter(k)) if len(k) == 1 else None
+    return out
+
+
+def arm_table(fa, fn, classify):
+    """variant -> class from the HIR match on QueryType in `fn`; '_' key for the wildcard arm."""
+    ms = [m for m in fa.matches(fn) if m["scrut_ty"].endswith("agdb::QueryType")]
+    if len(ms) != 1:
+        return None
+    tbl = {}
+    for a in ms[0]["arms"]:
+        c = classify(a["body"])
+        for p in flatten_or(a["p"]):
+            if p["k"] == "variant" and (p.get("path") or "").startswith("agdb::QueryType::"):
+                tbl[last(p["path"])] = c
+            elif p["k"] == "wild":
+                tbl["_"] = c
+            else:
+                tbl["?" + a["pat"]] = c
+    return tbl
+
+
+def exec_class(body):
+    cs = {common.norm(c) for c in body["calls"]}
+    mut = any(c.endswith("TransactionMut::exec_mut") for c in cs)
+    rd = any(c.endswith(("Transaction::exec", "TransactionMut::exec")) for c in cs)
+    if mut and not rd:
+        return "mut"
+    if rd and not mut:
+        return "read"
+    if not mut and not rd:
+        return "reject" if any(last(c) == "Err" for c in cs) else "none"
+    return "both"
+
+
+def audited_variants(body):
+    """(variant -> bool: arm sets the audit flag, audit call guarded by the flag) from t_exec_mut's MIR."""
+    flag = [i for i, l in enumerate(body.locals) if l.get("n") == "do_audit"]
+    sw = None
+    for i, blk in enumerate(body.blocks):
+        t = blk["term"]
+        if t["k"] != "switch":
+            continue
+        pl = cfg.op_place(t["d"])
+        ds = cfg.defs(body).get(pl[0], []) if pl else []
+        if ds and ds[0][0] == "assign" and ds[0][2]["k"] == "discr" and (ds[0][2].get("enum") or "").endswith("QueryType"):
+            sw = (i, t, dict((v, n) for v, n in ds[0][2]["variants"]))
+            break
+    if len(flag) != 1 or not sw:
+        return None, False
+    f = flag[0]
+    i0, t0, names = sw
+    regions = {names.get(v, "?%d" % v): cfg.reachable(body, [tb], avoid=[i0])[0] for v, tb in t0["ts"]}
+    out = {}
+    for n, reg in regions.items():
+        others = set().union(*[r for m, r in regions.items() if m != n]) if len(regions) > 1 else set()
+        excl = reg - others
+        out[n] = any(s.get("l") == [f] and s["r"]["k"] == "use" and (cfg.op_const(s["r"]["o"]) or {}).get("v") == 1
+                     for bi in excl for s in body.blocks[bi]["s"])
+    # the flag only ever receives constants, and audit_query is reachable only through flag == true
+    consts = all(d[0] == "assign" and d[2]["k"] == "use" and cfg.op_const(d[2]["o"]) for d in cfg.defs(body).get(f, []))
+    edges = [swt["true_edge"] for swt in cfg.bool_switches(body, flow(body, [f]))]
+    aq = [i for i, t in cfg.calls(body) if cfg.callee(t) == UDB + "audit_query"]
+    guarded = consts and bool(aq and edges) and all(cut(body, a, edges) is None for a in aq)
+    return out, guarded
+
+
+def r24d(ctx, rule="R24d"):
+    fa = ctx.facts
+    truth = query_truth(fa)
+    ok = len(truth) == 18 and all(truth.values())
+    ctx.ob(rule, "QueryType:variants", ok, "18 variants, each payload implements exactly one of Query / QueryMut" if ok else
+           "QueryType has %d variants, unclassified: %s" % (len(truth), sorted(k for k, v in truth.items() if not v)), "")
+    mut = {k for k, v in truth.items() if v == "mut"}
+    rd = {k for k, v in truth.items() if v == "read"}
+    ctx.ob(rule, "QueryType:frozen-table", mut == MUTATING and rd == READING,
+           "mutating/read-only split equals appendix A.3 (9 + 9)" if mut == MUTATING and rd == READING else
+           "payload traits differ from the frozen table: mutating %s / %s" % (sorted(mut ^ MUTATING), sorted(rd ^ READING)), "")
+    # required_role
+    b = ctx.anchor(rule, "agdb_server::utilities::required_role")
+    rr = arm_table(fa, b.path, lambda body: "Write" if "agdb_api::DbUserRole::Write" in body["paths"] and body["rets"] == 1
+                   else ("skip" if not body["paths"] and not body["calls"] and not body["rets"] else "?")) if b else None
+    te = arm_table(fa, UDB + "t_exec", exec_class) if ctx.anchor(rule, UDB + "t_exec") else None
+    bm = ctx.anchor(rule, UDB + "t_exec_mut")
+    tm = arm_table(fa, UDB + "t_exec_mut", exec_class) if bm else None
+    aud, guarded = audited_variants(bm) if bm else (None, False)
+    for name, tbl in (("required_role", rr), ("t_exec", te), ("t_exec_mut", tm), ("t_exec_mut:audit", aud)):
+        if tbl is None:
+            ctx.ob(rule, name + ":table", False, "match on QueryType in `%s` not found (idiom not recognised)" % name, "")
+    if None in (rr, te, tm, aud):
+        return mut
+    for v in sorted(truth):
+        want = truth[v]
+        got_rr = rr.get(v, rr.get("_"))
+        got_te = te.get(v, te.get("_"))
+        got_tm = tm.get(v, tm.get("_"))
+        got_au = aud.get(v)
+        exp = ("Write", "reject", "mut", True) if want == "mut" else ("skip", "read", "read", False)
+        got = (got_rr, got_te, got_tm, got_au)
+        ok = got == exp
+        wrong = [x for x, g, e in zip((b, fa.body(UDB + "t_exec"), bm, bm), got, exp) if g != e and x is not None]
+        where = wrong[0].where if wrong else b.where
+        ctx.ob(rule, "class[%s]" % v, ok,
+               "%s: required_role=%s, t_exec=%s, t_exec_mut=%s, audited=%s" % ((want,) + got) if ok else
+               "QueryType::%s is %s (payload trait) but required_role=%s, t_exec=%s, t_exec_mut=%s, audited=%s; expected %s" % (
+                   (v, want) + got + (exp,)), where,
+               key="%s|%s|class|%s" % (ctx.pid, rule, v))
+    stray = [k for t in (rr, te, tm) for k in t if k.startswith("?")]
+    ctx.ob(rule, "tables:patterns", not stray, "only plain variant / wildcard patterns" if not stray else
+           "unrecognised arm patterns %s" % stray, "")
+    ctx.ob(rule, "t_exec_mut:audit-guarded", guarded,
+           "audit_query is called only when the arm set do_audit (a flag that only receives constants)" if guarded else
+           "audit_query in t_exec_mut is not guarded by the do_audit flag any more", bm.where)
+    # required_role inspects every query of the batch: `Read` is returned only when the iterator is exhausted
+    if b:
+        reads = [bi for bi, s in cfg.assigns(b) if s["l"] == [0] and s["r"]["k"] == "agg" and s["r"].get("variant") == "Read"]
+        nxt = [(i, t) for i, t in cfg.calls(b) if (cfg.callee(t) or "").endswith("Iterator>::next")]
+        edges = []
+        for i, t in nxt:
+            for j, blk in enumerate(b.blocks):
+                tt = blk["term"]
+                if tt["k"] == "switch":
+                    pl = cfg.op_place(tt["d"])
+                    ds = cfg.defs(b).get(pl[0], []) if pl else []
+                    if ds and ds[0][0] == "assign" and ds[0][2]["k"] == "discr" and ds[0][2]["p"][0] == t["d"][0]:
+                        edges += [(j, tb) for v, tb in tt["ts"] if v == 0]
+        it = [t for i, t in cfg.calls(b) if (cfg.callee(t) or "").endswith("IntoIterator>::into_iter")]
+        whole = bool(it) and who(b, it[0]["a"][0]) == (1, (".0",))
+        ok = bool(reads and edges) and whole and all(cut(b, r, edges) is None for r in reads)
+        ctx.ob(rule, "required_role:all-queries", ok,
+               "Read is returned only after the loop over queries.0 is exhausted" if ok else
+               "required_role can return Read without having inspected every query of the batch", b.where)
+    return mut
+
+
+# ---------------------------------------------------------------- R24e (MIR part) / WHO chain of mutation
+
+def r24e(ctx):
+    fa = ctx.facts
+    b = ctx.anchor("R24e", UDB + "UserDb::exec::{closure#0}")
+    if b:
+        names = [common.norm(cfg.callee(t) or "") for i, t in cfg.calls(b)]
+        locks = [n for n in names if n.startswith("tokio::sync::RwLock::")]
+        trs = [(i, t) for i, t in cfg.calls(b) if common.norm(cfg.callee(t) or "").startswith("agdb::DbImpl::")]
+        ok = locks == ["tokio::sync::RwLock::read"] and [last(common.norm(cfg.callee(t))) for i, t in trs] == ["transaction"]
+        ctx.ob("R24e", "UserDb::exec:read-lock", ok,
+               "takes RwLock::read and DbImpl::transaction (immutable)" if ok else
+               "UserDb::exec uses %s / %s instead of the read lock and an immutable transaction" % (
+                   locks, [common.norm(cfg.callee(t)) for i, t in trs]), b.where)
+        cls = [c for i, t in trs for c in common.closure_bodies_passed(fa, b, t)]
+        called = {common.norm(cfg.callee(t) or "") for c in cls for i, t in cfg.calls(c)}
+        ok = bool(cls) and UDB + "t_exec" in called and UDB + "t_exec_mut" not in called and \
+            not any(n.endswith("exec_mut") for n in called)
+        ctx.ob("R24e", "UserDb::exec:closure", ok, "the transaction closure runs t_exec only" if ok else
+               "the closure of UserDb::exec calls %s" % sorted(n for n in called if "exec" in n), b.where)
+    sig = fa.fns.get(UDB + "t_exec")
+    ok = bool(sig) and sig["inputs"][0].startswith("&agdb::Transaction<") and not sig["inputs"][0].startswith("&mut")
+    ctx.ob("R24e", "t_exec:immutable-transaction", ok, "t_exec receives `&Transaction` (no exec_mut available)" if ok else
+           "t_exec's transaction parameter is %s" % (sig["inputs"][0] if sig else None), "")
+    # WHO: the only way to t_exec_mut is exec_mut handler -> DbExec -> DbPool::exec_mut -> UserDb::exec_mut
+    chain = [
+        (UDB + "t_exec_mut", {UDB + "UserDb::exec_mut"}),
+        (UDB + "UserDb::exec_mut", {POOL + "exec_mut"}),
+        (POOL + "exec_mut", {"<agdb_server::action::db_exec::DbExec as agdb_server::action::Action>::exec"}),
+    ]
+    for callee, allowed in chain:
+        callers = {common.norm(cb.root or cb.npath) for cb, j, t in common.callers_of(fa, callee, "agdb_server")}
+        ok = bool(callers) and callers <= allowed
+        ctx.ob("R24e", "who:%s" % "::".join(callee.split("::")[-2:]), ok,
+               "called only from %s" % sorted(callers) if ok else
+               "`%s` is called from %s, allowed %s" % (callee, sorted(callers - allowed) or "nobody", sorted(allowed)), "")
+    makers = set()
+    for ob in fa.bodies.values():
+        if ob.crate == "agdb_server":
+            for bi, s in cfg.assigns(ob):
+                if s["r"]["k"] == "agg" and s["r"].get("adt") == ACT + "db_exec::DbExec":
+                    makers.add(common.norm(ob.root or ob.npath))
+    allowed = {R + "db::exec_mut", R + "admin::db::exec_mut"}
+    # derived Clone / Deserialize / DbSerialize impls inside the action's module rebuild replicated actions that
+    # arrive through the ClusterId-protected raft endpoint or the local log
+    derive = {m for m in makers if ACT + "db_exec::" in m and not m.startswith(R)}
+    ok = bool(makers) and (makers - derive) <= allowed
+    ctx.ob("R24e", "who:DbExec", ok, "DbExec is constructed only by %s" % sorted(makers - derive) if ok else
+           "DbExec constructed by %s" % sorted(makers - derive - allowed), "")
+
+
+# ---------------------------------------------------------------- R24f logout / role removal
+
+REMOVERS = {SDB + "remove_token", SDB + "remove_tokens", SDB + "remove_tokens_except", SDB + "remove_session",
+            SDB + "remove_all_tokens"}
+TOKEN_ACTIONS = {
+    "remove_user_token::RemoveUserToken": "remove_token",
+    "remove_user_tokens::RemoveUserTokens": "remove_tokens",
+    "remove_user_tokens_except::RemoveUserTokensExcept": "remove_tokens_except",
+    "remove_user_session::RemoveUserSession": "remove_session",
+    "remove_all_tokens::RemoveAllTokens": "remove_all_tokens",
+    "db_user_remove::DbUserRemove": "remove_db_user",
+}
+LOGOUTS = [R + "user::logout", R + "cluster::logout", R + "admin::user::logout", R + "admin::user::logout_all",
+           R + "cluster::admin_logout", R + "cluster::admin_logout_all"]
+
+
+def must_pass_ok(body, sites):
+    """Every Ok return passes the Ok edge of `?` on one of the calls at `sites` (awaited)."""
+    okb = ok_blocks(body)
+    edges = []
+    for i in sites:
+        edges += ok_edges(body, body.blocks[i]["term"]["d"][0])
+    if not (okb and edges):
+        return False, None
+    p = cfg.find_path(body, [0], okb, removed_edges=edges)
+    return p is None, p
+
+
+def r24f(ctx):
+    fa = ctx.facts
+    for h in LOGOUTS:
+        b = ctx.anchor("R24f", h + "::{closure#0}")
+        if not b:
+            continue
+        sites = []
+        for i, t in cfg.calls(b):
+            n = cfg.callee(t) or ""
+            if n in REMOVERS:
+                sites.append(i)
+            elif n == CEXEC and any((ACT + a) in (cfg.callee_full(t) or "") for a in TOKEN_ACTIONS if a != "db_user_remove::DbUserRemove"):
+                sites.append(i)
+        ok, p = must_pass_ok(b, sites)
+        ctx.ob("R24f", "%s:removes-token" % h[len(R):], ok,
+               "every success path passes a successful token/session removal (%d sites)" % len(sites) if ok else
+               "`%s` can answer success without removing any token (%s)" % (h, cfg.path_str(b, p) if p else "no removal call found"),
+               b.where)
+    for a, sink in sorted(TOKEN_ACTIONS.items()):
+        b = ctx.anchor("R24f", "<%s%s as agdb_server::action::Action>::exec::{closure#0}" % (ACT, a))
+        if not b:
+            continue
+        sites = [i for i, t in cfg.calls(b) if cfg.callee(t) == SDB + sink]
+        ok, p = must_pass_ok(b, sites)
+        ctx.ob("R24f", "%s:reaches-%s" % (last(a), sink), ok,
+               "action succeeds only after ServerDb::%s succeeded" % sink if ok else
+               "action %s can succeed without ServerDb::%s (%s)" % (last(a), sink, cfg.path_str(b, p) if p else "call not found"),
+               b.where)
+    # the removing primitives execute a mutating query on the server db under the write lock
+    for fn in sorted(REMOVERS | {SDB + "remove_db_user"}):
+        b = ctx.anchor("R24f", fn + "::{closure#0}")
+        if not b:
+            continue
+        bodies = [b] + fa.closures_of(b.path)
+        names = {common.norm(cfg.callee(t) or "") for x in bodies for i, t in cfg.calls(x)}
+        ok = "tokio::sync::RwLock::write" in names and any(n.endswith("::exec_mut") for n in names)
+        ctx.ob("R24f", "%s:mutates" % last(fn), ok, "takes the write lock and runs exec_mut (remove query)" if ok else
+               "`%s` no longer executes a mutating query under the write lock" % fn, b.where)
+
+
 def run(ctx):
     rows = r24a(ctx)
     r24b(ctx)
     r24c(ctx, rows)
+    r24d(ctx)
+    r24e(ctx)
+    r24f(ctx)
+    # R24e (type-level half): exec / Transaction::exec reject a mutating query at compile time (E3 witnesses)
+    from rules.C23 import witness
+    witness(ctx, "C24")
     return 0
